@@ -721,7 +721,36 @@ func (in *absInterp) unop(fr *absFrame, x *ssa.UnOp) aval {
 	return nil
 }
 
+// aNaN: the one floating-point value the evaluator knows besides the integers - it compares unequal to everything,
+// itself included, and every ordered comparison with it is false.
+type aNaN struct{}
+
 func (in *absInterp) binop(x *ssa.BinOp, a, b aval) aval {
+	_, aIsNaN := a.(aNaN)
+	_, bIsNaN := b.(aNaN)
+	if aIsNaN || bIsNaN {
+		switch x.Op {
+		case token.EQL, token.LSS, token.LEQ, token.GTR, token.GEQ:
+			return aBool(false)
+		case token.NEQ:
+			return aBool(true)
+		}
+		in.fail("arithmetic on NaN (%s)", x)
+	}
+	if as, ok := a.(aStr); ok {
+		if bs, ok := b.(aStr); ok {
+			switch x.Op {
+			case token.LSS:
+				return aBool(as < bs)
+			case token.LEQ:
+				return aBool(as <= bs)
+			case token.GTR:
+				return aBool(as > bs)
+			case token.GEQ:
+				return aBool(as >= bs)
+			}
+		}
+	}
 	if x.Op == token.EQL || x.Op == token.NEQ {
 		eq, ok := avalEqual(a, b)
 		if !ok {
@@ -1423,6 +1452,73 @@ func (in *absInterp) constGlobalOf(g *ssa.Global) (aval, bool) {
 			return in.constVal(x), true
 		case *ssa.Function:
 			return aFunc{fn: x}, true
+		case *ssa.UnOp:
+			// a struct (or array) literal: a local filled field by field with constants, then loaded
+			al, ok := x.X.(*ssa.Alloc)
+			if !ok || x.Op != token.MUL {
+				return nil, false
+			}
+			cell := &acell{v: in.zero(al.Type().Underlying().(*types.Pointer).Elem()), name: "lit"}
+			for _, ref := range *al.Referrers() {
+				var path string
+				var addr ssa.Value
+				switch a := ref.(type) {
+				case *ssa.FieldAddr:
+					path, addr = fmt.Sprintf("/%d", a.Field), a
+				case *ssa.IndexAddr:
+					k, isK := constInt(a.Index)
+					if !isK {
+						return nil, false
+					}
+					path, addr = fmt.Sprintf("/%d", k), a
+				case *ssa.Store:
+					if a.Addr == ssa.Value(al) {
+						v, ok := constOf(a.Val, d+1)
+						if !ok {
+							return nil, false
+						}
+						cell.v = v
+					}
+					continue
+				default:
+					continue
+				}
+				for _, r2 := range *addr.Referrers() {
+					if st, ok := r2.(*ssa.Store); ok && st.Addr == addr {
+						v, ok := constOf(st.Val, d+1)
+						if !ok {
+							return nil, false
+						}
+						in.store(aRef{root: cell, path: path}, v)
+					}
+				}
+			}
+			return cell.v, true
+		case *ssa.MakeMap:
+			out := newAMap()
+			for _, ref := range *x.Referrers() {
+				mu, ok := ref.(*ssa.MapUpdate)
+				if !ok {
+					continue
+				}
+				kc, ok := mu.Key.(*ssa.Const)
+				if !ok || kc.Value == nil {
+					return nil, false
+				}
+				key, ok := absMapKey(in.constVal(kc))
+				if !ok {
+					return nil, false
+				}
+				val, ok := constOf(mu.Value, d+1)
+				if !ok {
+					return nil, false
+				}
+				if _, had := out.m[string(key)]; !had {
+					*out.order = append(*out.order, string(key))
+				}
+				out.m[string(key)] = val
+			}
+			return out, true
 		case *ssa.Slice:
 			al, ok := x.X.(*ssa.Alloc)
 			if !ok || x.Low != nil || x.High != nil {
